@@ -23,9 +23,10 @@ def main():
     ap.add_argument('variant')
     ap.add_argument('--checks', default=None)
     ap.add_argument('--src', default=None, help='directory with <variant>.diff, <variant>_demo.cpp, <variant>.txt')
+    ap.add_argument('--round', default='', help='2 = second seeding round (worktree wt2-<prop>, deliverables out2-<prop>)')
     a = ap.parse_args()
-    wt = '/tmp/seeds/wt-%s' % a.prop
-    src = a.src or '/tmp/seeds/out-%s' % a.prop
+    wt = '/tmp/seeds/wt%s-%s' % (a.round, a.prop)
+    src = a.src or '/tmp/seeds/out%s-%s' % (a.round, a.prop)
     diff = os.path.join(src, a.variant + '.diff')
     demo = os.path.join(src, a.variant + '_demo.cpp')
     meta = {'property': a.prop, 'variant': a.variant, 'ran': []}
@@ -35,12 +36,12 @@ def main():
     meta['ran'].append('cmake build of the clean worktree: rc=%d' % rc)
     build_demo = ('g++ -std=c++11 -DH5_USE_110_API=1 -I%s/include -I%s/_build/include -I/usr/include/hdf5/serial %s -L%s/_build -lnixio '
                   '-L/usr/lib/x86_64-linux-gnu/hdf5/serial -lhdf5 -lboost_date_time -lboost_regex -lboost_filesystem -lboost_system '
-                  '-o /tmp/seeds/demo-%s-%s' % (wt, wt, demo, wt, a.prop, a.variant))
+                  '-o /tmp/seeds/demo%s-%s-%s' % (wt, wt, demo, wt, a.round, a.prop, a.variant))
     rc, out = sh(build_demo)
     if rc != 0:
         print('demo does not build:', out[-2000:])
         return 2
-    run_demo = 'cd /tmp/seeds && LD_LIBRARY_PATH=%s/_build /tmp/seeds/demo-%s-%s' % (wt, a.prop, a.variant)
+    run_demo = 'cd /tmp/seeds && LD_LIBRARY_PATH=%s/_build /tmp/seeds/demo%s-%s-%s' % (wt, a.round, a.prop, a.variant)
     rc0, out0 = sh(run_demo)
     meta['demo_exit_clean'] = rc0
     print('demo on clean tree: exit', rc0)
@@ -93,7 +94,7 @@ def main():
     for d in os.listdir(os.path.join(VERIF, 'build', 'ocaml')) if os.path.isdir(os.path.join(VERIF, 'build', 'ocaml')) else []:
         if d.endswith('-' + tag):
             shutil.rmtree(os.path.join(VERIF, 'build', 'ocaml', d), ignore_errors=True)
-    out_dir = os.path.join(VERIF, 'seeded', '%s-%s' % (a.prop, a.variant))
+    out_dir = os.path.join(VERIF, 'seeded', '%s-%s%s' % (a.prop, a.variant, a.round))
     os.makedirs(out_dir, exist_ok=True)
     shutil.copy(diff, os.path.join(out_dir, 'patch.diff'))
     shutil.copy(demo, os.path.join(out_dir, 'demo.cpp'))
